@@ -205,15 +205,17 @@ theorem inv_login {s : State} (hs : Inv s) (u : User) (pw : Bool) :
   split
   · rename_i h
     subst h
-    apply inv_sameAux hs ⟨rfl, rfl, rfl, rfl, rfl, rfl, fun _ => rfl, rfl⟩
-    intro c hc
-    simp only [List.mem_singleton] at hc
-    subst hc
-    exact levelOK_password (by simp [events])
+    split
+    · exact inv_sameAux hs ⟨rfl, rfl, rfl, rfl, rfl, rfl, fun _ => rfl, rfl⟩ (by intro c hc; cases hc)
+    · apply inv_sameAux hs ⟨rfl, rfl, rfl, rfl, rfl, rfl, fun _ => rfl, rfl⟩
+      intro c hc
+      simp only [List.mem_singleton] at hc
+      subst hc
+      exact levelOK_password (by simp [events])
   · exact inv_reject hs _ _
 
-theorem inv_vipOtp {s : State} (hs : Inv s) (c : Option Cookie) (o : Option User) :
-    Inv (assemble (events s (.vipOtp c o)) (hVipOtp s c o)) := by
+theorem inv_vipOtp {s : State} (hs : Inv s) (c : Cookies) (o : Option User) :
+    Inv (assemble (events s (.vipOtp c o)) (hVipOtp s (caller c) o)) := by
   unfold hVipOtp
   split
   · exact inv_reject hs _ _
@@ -225,8 +227,8 @@ theorem inv_vipOtp {s : State} (hs : Inv s) (c : Option Cookie) (o : Option User
       simp [events, hauth]
     · exact inv_reject hs _ _
 
-theorem inv_pushStart {s : State} (hs : Inv s) (c : Option Cookie) (v : Option Nat) :
-    Inv (assemble (events s (.pushStart c v)) (hPushStart s c v)) := by
+theorem inv_pushStart {s : State} (hs : Inv s) (c : Cookies) (v : Option Nat) :
+    Inv (assemble (events s (.pushStart c v)) (hPushStart s (caller c) v)) := by
   unfold hPushStart
   split
   · exact inv_reject hs _ _
@@ -295,8 +297,8 @@ theorem inv_approve {s : State} (hs : Inv s) (k : Nat) :
     · exact hs.bootWorld
   · exact inv_reject hs _ _
 
-theorem inv_poll {s : State} (hs : Inv s) (c : Option Cookie) (v : Option Nat) :
-    Inv (assemble (events s (.poll c v)) (hPoll fixed s c v)) := by
+theorem inv_poll {s : State} (hs : Inv s) (c : Cookies) (v : Option Nat) :
+    Inv (assemble (events s (.poll c v)) (hPoll fixed s (caller c) v)) := by
   unfold hPoll
   split
   · exact inv_reject hs _ _
@@ -329,8 +331,8 @@ theorem inv_poll {s : State} (hs : Inv s) (c : Option Cookie) (v : Option Nat) :
               rw [← hu]
               exact List.mem_append_right _ (hs.svcLog _ _ hsvc)
 
-theorem inv_totp {s : State} (hs : Inv s) (c : Option Cookie) (code : Option (User × Nat)) :
-    Inv (assemble (events s (.totp c code)) (hTotp fixed s c code)) := by
+theorem inv_totp {s : State} (hs : Inv s) (c : Cookies) (code : Option (User × Nat)) :
+    Inv (assemble (events s (.totp c code)) (hTotp fixed s (caller c) code)) := by
   unfold hTotp
   split
   · exact inv_reject hs _ _
@@ -346,15 +348,17 @@ theorem inv_totp {s : State} (hs : Inv s) (c : Option Cookie) (code : Option (Us
           split
           · obtain ⟨h1, h2, h3⟩ := hv
             subst h2
-            refine inv_upgrade hs (sameAux_setLastTotp s _ k) (auth_some hauth).1 (levelOK_totp ?_)
-            simp [events, h1, h3]
+            split
+            · exact inv_reject hs _ _
+            · refine inv_upgrade hs (sameAux_setLastTotp s _ k) (auth_some hauth).1 (levelOK_totp ?_)
+              simp [events, h1, h3]
           · exact inv_reject hs _ _
         · exact inv_reject hs _ _
 
 theorem sameAux_clearBoot_fails : True := trivial
 
-theorem inv_bootstrap {s : State} (hs : Inv s) (c : Option Cookie) (o : Option User) :
-    Inv (assemble (events s (.bootstrap c o)) (hBootstrap s c o)) := by
+theorem inv_bootstrap {s : State} (hs : Inv s) (c : Cookies) (o : Option User) :
+    Inv (assemble (events s (.bootstrap c o)) (hBootstrap s (caller c) o)) := by
   unfold hBootstrap
   split
   · exact inv_reject hs _ _
@@ -373,26 +377,28 @@ theorem inv_bootstrap {s : State} (hs : Inv s) (c : Option Cookie) (o : Option U
             apply Nat.lt_of_not_le
             intro hle
             exact hnot (Or.inr (Or.inr hle))
-          apply inv_assemble hs rfl rfl
-          · intro c' hc'
-            simp only [List.mem_singleton] at hc'
-            subst hc'
-            refine levelOK_bump (levelOK_mono (hs.cookies ck (auth_some hauth).1)
-              (fun x hx => List.mem_append_right _ hx)) (levelOK_boot ?_)
-            simp [events, hissued, hlt]
-          · exact hs.pushSvc
-          · intro k u hk; exact List.mem_append_right _ (hs.svcLog k u hk)
-          · exact hs.svcBound
-          · intro u hu; exact List.mem_append_right _ (hs.oktaLog u hu)
-          · intro u e' hb
-            simp only [clearBoot, upd] at hb
-            split at hb
-            · cases hb
-            · exact hs.bootWorld u e' hb
+          split
+          · exact inv_reject hs _ _
+          · apply inv_assemble hs rfl rfl
+            · intro c' hc'
+              simp only [List.mem_singleton] at hc'
+              subst hc'
+              refine levelOK_bump (levelOK_mono (hs.cookies ck (auth_some hauth).1)
+                (fun x hx => List.mem_append_right _ hx)) (levelOK_boot ?_)
+              simp [events, hissued, hlt]
+            · exact hs.pushSvc
+            · intro k u hk; exact List.mem_append_right _ (hs.svcLog k u hk)
+            · exact hs.svcBound
+            · intro u hu; exact List.mem_append_right _ (hs.oktaLog u hu)
+            · intro u e' hb
+              simp only [clearBoot, upd] at hb
+              split at hb
+              · cases hb
+              · exact hs.bootWorld u e' hb
         · exact inv_reject hs _ _
 
-theorem inv_u2fBegin {s : State} (hs : Inv s) (c : Option Cookie) :
-    Inv (assemble (events s (.u2fBegin c)) (hU2fBegin s c)) := by
+theorem inv_u2fBegin {s : State} (hs : Inv s) (c : Cookies) :
+    Inv (assemble (events s (.u2fBegin c)) (hU2fBegin s (caller c))) := by
   unfold hU2fBegin
   split
   · exact inv_reject hs _ _
@@ -400,8 +406,8 @@ theorem inv_u2fBegin {s : State} (hs : Inv s) (c : Option Cookie) :
     · exact inv_sameAux hs (sameAux_newChal s _ _) (by intro c hc; cases hc)
     · exact inv_reject hs _ _
 
-theorem inv_waBegin {s : State} (hs : Inv s) (c : Option Cookie) :
-    Inv (assemble (events s (.waBegin c)) (hWaBegin s c)) := by
+theorem inv_waBegin {s : State} (hs : Inv s) (c : Cookies) :
+    Inv (assemble (events s (.waBegin c)) (hWaBegin s (caller c))) := by
   unfold hWaBegin
   split
   · exact inv_reject hs _ _
@@ -409,8 +415,8 @@ theorem inv_waBegin {s : State} (hs : Inv s) (c : Option Cookie) :
     · exact inv_sameAux hs (sameAux_newChal s _ _) (by intro c hc; cases hc)
     · exact inv_reject hs _ _
 
-theorem inv_u2fFinish {s : State} (hs : Inv s) (c : Option Cookie) (a : Option Assertion) :
-    Inv (assemble (events s (.u2fFinish c a)) (hU2fFinish fixed s c a)) := by
+theorem inv_u2fFinish {s : State} (hs : Inv s) (c : Cookies) (a : Option Assertion) :
+    Inv (assemble (events s (.u2fFinish c a)) (hU2fFinish fixed s (caller c) a)) := by
   unfold hU2fFinish
   split
   · exact inv_reject hs _ _
@@ -445,8 +451,8 @@ theorem inv_u2fFinish {s : State} (hs : Inv s) (c : Option Cookie) (a : Option A
                 · exact inv_reject hs _ _
             · exact inv_reject hs _ _
 
-theorem inv_waFinish {s : State} (hs : Inv s) (c : Option Cookie) (a : Option Assertion) :
-    Inv (assemble (events s (.waFinish c a)) (hWaFinish fixed s c a)) := by
+theorem inv_waFinish {s : State} (hs : Inv s) (c : Cookies) (a : Option Assertion) :
+    Inv (assemble (events s (.waFinish c a)) (hWaFinish fixed s (caller c) a)) := by
   unfold hWaFinish
   split
   · exact inv_reject hs _ _
@@ -477,8 +483,8 @@ theorem inv_waFinish {s : State} (hs : Inv s) (c : Option Cookie) (a : Option As
                 exact levelOK_or (levelOK_fido2 hm) (levelOK_u2f hm)
               · exact inv_reject hs _ _
 
-theorem inv_showToken {s : State} (hs : Inv s) (c : Option Cookie) (l : Nat) :
-    Inv (assemble (events s (.showToken c l)) (hShowToken s c l)) := by
+theorem inv_showToken {s : State} (hs : Inv s) (c : Cookies) (l : Nat) :
+    Inv (assemble (events s (.showToken c l)) (hShowToken s (caller c) l)) := by
   unfold hShowToken
   split
   · exact inv_reject hs _ _
@@ -486,8 +492,8 @@ theorem inv_showToken {s : State} (hs : Inv s) (c : Option Cookie) (l : Nat) :
     · exact inv_reject hs _ _
     · exact inv_sameAux hs ⟨rfl, rfl, rfl, rfl, rfl, rfl, fun _ => rfl, rfl⟩ (by intro c hc; cases hc)
 
-theorem inv_sendDoc {s : State} (hs : Inv s) (c : Option Cookie) (t : Option CliTok) :
-    Inv (assemble (events s (.sendDoc c t)) (hSendDoc s c t)) := by
+theorem inv_sendDoc {s : State} (hs : Inv s) (c : Cookies) (t : Option CliTok) :
+    Inv (assemble (events s (.sendDoc c t)) (hSendDoc s (caller c) t)) := by
   unfold hSendDoc
   split
   · exact inv_reject hs _ _
@@ -505,8 +511,8 @@ theorem inv_sendDoc {s : State} (hs : Inv s) (c : Option Cookie) (t : Option Cli
           exact levelOK_cli (by simp [events, hok.1, hok.2.2])
         · exact inv_reject hs _ _
 
-theorem inv_oktaOtp {s : State} (hs : Inv s) (c : Option Cookie) (o : Option User) :
-    Inv (assemble (events s (.oktaOtp c o)) (hOktaOtp s c o)) := by
+theorem inv_oktaOtp {s : State} (hs : Inv s) (c : Cookies) (o : Option User) :
+    Inv (assemble (events s (.oktaOtp c o)) (hOktaOtp s (caller c) o)) := by
   unfold hOktaOtp
   split
   · exact inv_reject hs _ _
@@ -526,8 +532,8 @@ theorem inv_oktaOtp {s : State} (hs : Inv s) (c : Option Cookie) (o : Option Use
         simp [events, hauth, this, hsess]
       · exact inv_reject hs _ _
 
-theorem inv_oktaPushStart {s : State} (hs : Inv s) (c : Option Cookie) :
-    Inv (assemble (events s (.oktaPushStart c)) (hOktaPushStart s c)) := by
+theorem inv_oktaPushStart {s : State} (hs : Inv s) (c : Cookies) :
+    Inv (assemble (events s (.oktaPushStart c)) (hOktaPushStart s (caller c))) := by
   unfold hOktaPushStart
   split
   · exact inv_reject hs _ _
@@ -537,8 +543,8 @@ theorem inv_oktaPushStart {s : State} (hs : Inv s) (c : Option Cookie) :
       · exact inv_reject hs _ _
       · exact inv_sameAux hs ⟨rfl, rfl, rfl, rfl, rfl, rfl, fun _ => rfl, rfl⟩ (by intro c hc; cases hc)
 
-theorem inv_oktaPoll {s : State} (hs : Inv s) (c : Option Cookie) :
-    Inv (assemble (events s (.oktaPoll c)) (hOktaPoll s c)) := by
+theorem inv_oktaPoll {s : State} (hs : Inv s) (c : Cookies) :
+    Inv (assemble (events s (.oktaPoll c)) (hOktaPoll s (caller c))) := by
   unfold hOktaPoll
   split
   · exact inv_reject hs _ _
@@ -593,8 +599,8 @@ theorem inv_sweep {s : State} (hs : Inv s) :
   · exact hs.bootWorld
 
 /-- **one step** of the repaired system preserves the invariant -/
-theorem step_inv {s : State} (hs : Inv s) (op : Op) : Inv (step fixed s op).1 := by
-  rw [step_fst]
+theorem handle0_inv {s : State} (hs : Inv s) (op : Op) :
+    Inv (assemble (events s op) (handle0 fixed s op)) := by
   cases op with
   | login u pw => exact inv_login hs u pw
   | vipOtp c o => exact inv_vipOtp hs c o
@@ -616,6 +622,14 @@ theorem step_inv {s : State} (hs : Inv s) (op : Op) : Inv (step fixed s op).1 :=
   | oktaPoll c => exact inv_oktaPoll hs c
   | tick => exact inv_tick hs
   | sweep => exact inv_sweep hs
+  | fault sv ld => exact inv_sameAux hs ⟨rfl, rfl, rfl, rfl, rfl, rfl, fun _ => rfl, rfl⟩ (by intro c hc; cases hc)
+
+theorem step_inv {s : State} (hs : Inv s) (op : Op) : Inv (step fixed s op).1 := by
+  rw [step_fst]
+  unfold handle
+  split
+  · exact inv_reject hs _ _
+  · exact handle0_inv hs op
 
 theorem init_inv (t0 : Nat) (okta : Bool) (cfg : User → UserCfg) : Inv (init t0 okta cfg) := by
   refine ⟨?_, ?_, ?_, ?_, ?_, ?_⟩
@@ -665,23 +679,23 @@ macro "same_tac" : tactic =>
 
 theorem shape_login (s : State) (u : User) (pw : Bool) : Shape s (hLogin s u pw).1 := by
   unfold hLogin; same_tac
-theorem shape_vipOtp (s : State) (c o) : Shape s (hVipOtp s c o).1 := by
+theorem shape_vipOtp (s : State) (c o) : Shape s (hVipOtp s (caller c) o).1 := by
   unfold hVipOtp; same_tac
-theorem shape_pushStart (s : State) (c v) : Shape s (hPushStart s c v).1 := by
+theorem shape_pushStart (s : State) (c v) : Shape s (hPushStart s (caller c) v).1 := by
   unfold hPushStart; same_tac
 theorem shape_approve (s : State) (k) : Shape s (hApprove s k).1 := by
   unfold hApprove; same_tac
-theorem shape_poll (s : State) (c v) : Shape s (hPoll fixed s c v).1 := by
+theorem shape_poll (s : State) (c v) : Shape s (hPoll fixed s (caller c) v).1 := by
   unfold hPoll; same_tac
-theorem shape_showToken (s : State) (c l) : Shape s (hShowToken s c l).1 := by
+theorem shape_showToken (s : State) (c l) : Shape s (hShowToken s (caller c) l).1 := by
   unfold hShowToken; same_tac
-theorem shape_sendDoc (s : State) (c t) : Shape s (hSendDoc s c t).1 := by
+theorem shape_sendDoc (s : State) (c t) : Shape s (hSendDoc s (caller c) t).1 := by
   unfold hSendDoc; same_tac
-theorem shape_oktaOtp (s : State) (c o) : Shape s (hOktaOtp s c o).1 := by
+theorem shape_oktaOtp (s : State) (c o) : Shape s (hOktaOtp s (caller c) o).1 := by
   unfold hOktaOtp; same_tac
-theorem shape_oktaPushStart (s : State) (c) : Shape s (hOktaPushStart s c).1 := by
+theorem shape_oktaPushStart (s : State) (c) : Shape s (hOktaPushStart s (caller c)).1 := by
   unfold hOktaPushStart; same_tac
-theorem shape_oktaPoll (s : State) (c) : Shape s (hOktaPoll s c).1 := by
+theorem shape_oktaPoll (s : State) (c) : Shape s (hOktaPoll s (caller c)).1 := by
   unfold hOktaPoll; same_tac
 theorem shape_oktaApprove (s : State) (u) : Shape s (hOktaApprove s u).1 := by
   unfold hOktaApprove; same_tac
@@ -701,7 +715,7 @@ theorem profStep_clearBoot (s : State) (u u' : User) :
   · rename_i he; subst he; exact ⟨rfl, rfl, rfl, Nat.le_refl _, Or.inr rfl⟩
   · exact ProfStep.refl _
 
-theorem shape_totp (s : State) (c code) : Shape s (hTotp fixed s c code).1 := by
+theorem shape_totp (s : State) (c code) : Shape s (hTotp fixed s (caller c) code).1 := by
   unfold hTotp
   split
   · exact shape_same rfl rfl rfl rfl
@@ -713,11 +727,13 @@ theorem shape_totp (s : State) (c code) : Shape s (hTotp fixed s c code).1 := by
         · simp only [fixed, if_true]
           split
           · rename_i hlt
-            exact ⟨Nat.le_refl _, profStep_setLastTotp (Nat.le_of_lt hlt), ChalStep.same rfl rfl⟩
+            split
+            · exact shape_same rfl rfl rfl rfl
+            · exact ⟨Nat.le_refl _, profStep_setLastTotp (Nat.le_of_lt hlt), ChalStep.same rfl rfl⟩
           · exact shape_same rfl rfl rfl rfl
         · exact shape_same rfl rfl rfl rfl
 
-theorem shape_bootstrap (s : State) (c o) : Shape s (hBootstrap s c o).1 := by
+theorem shape_bootstrap (s : State) (c o) : Shape s (hBootstrap s (caller c) o).1 := by
   unfold hBootstrap
   split
   · exact shape_same rfl rfl rfl rfl
@@ -726,7 +742,9 @@ theorem shape_bootstrap (s : State) (c o) : Shape s (hBootstrap s c o).1 := by
     · split
       · exact shape_same rfl rfl rfl rfl
       · split
-        · exact ⟨Nat.le_refl _, profStep_clearBoot s _, ChalStep.same rfl rfl⟩
+        · split
+          · exact shape_same rfl rfl rfl rfl
+          · exact ⟨Nat.le_refl _, profStep_clearBoot s _, ChalStep.same rfl rfl⟩
         · exact shape_same rfl rfl rfl rfl
 
 theorem shape_newChal (s : State) (u : User) (wa : Bool) : Shape s (newChal s u wa) := by
@@ -741,7 +759,7 @@ theorem shape_delChal (s : State) (u : User) : Shape s (delChal s u) := by
   · exact Or.inr rfl
   · exact Or.inl rfl
 
-theorem shape_u2fBegin (s : State) (c) : Shape s (hU2fBegin s c).1 := by
+theorem shape_u2fBegin (s : State) (c) : Shape s (hU2fBegin s (caller c)).1 := by
   unfold hU2fBegin
   split
   · exact shape_same rfl rfl rfl rfl
@@ -749,7 +767,7 @@ theorem shape_u2fBegin (s : State) (c) : Shape s (hU2fBegin s c).1 := by
     · exact shape_newChal s _ _
     · exact shape_same rfl rfl rfl rfl
 
-theorem shape_waBegin (s : State) (c) : Shape s (hWaBegin s c).1 := by
+theorem shape_waBegin (s : State) (c) : Shape s (hWaBegin s (caller c)).1 := by
   unfold hWaBegin
   split
   · exact shape_same rfl rfl rfl rfl
@@ -757,12 +775,12 @@ theorem shape_waBegin (s : State) (c) : Shape s (hWaBegin s c).1 := by
     · exact shape_newChal s _ _
     · exact shape_same rfl rfl rfl rfl
 
-theorem shape_u2fFinish (s : State) (c a) : Shape s (hU2fFinish fixed s c a).1 := by
+theorem shape_u2fFinish (s : State) (c a) : Shape s (hU2fFinish fixed s (caller c) a).1 := by
   unfold hU2fFinish
   simp only [fixed, if_true]
   (repeat' split) <;> first | exact shape_same rfl rfl rfl rfl | exact shape_delChal s _
 
-theorem shape_waFinish (s : State) (c a) : Shape s (hWaFinish fixed s c a).1 := by
+theorem shape_waFinish (s : State) (c a) : Shape s (hWaFinish fixed s (caller c) a).1 := by
   unfold hWaFinish
   (repeat' split) <;> first | exact shape_same rfl rfl rfl rfl | exact shape_delChal s _
 
@@ -780,9 +798,7 @@ theorem shape_assemble {s : State} {r : Res} (evs : List (User × Factor)) (h : 
     Shape s (assemble evs r) := ⟨h.now, h.prof, h.chal⟩
 
 /-- every step of the repaired system has the monotone shape -/
-theorem step_shape (s : State) (op : Op) : Shape s (step fixed s op).1 := by
-  rw [step_fst]
-  apply shape_assemble
+theorem handle0_shape (s : State) (op : Op) : Shape s (handle0 fixed s op).1 := by
   cases op with
   | login u pw => exact shape_login s u pw
   | vipOtp c o => exact shape_vipOtp s c o
@@ -804,6 +820,15 @@ theorem step_shape (s : State) (op : Op) : Shape s (step fixed s op).1 := by
   | oktaPoll c => exact shape_oktaPoll s c
   | tick => exact ⟨Nat.le_succ _, fun _ => ProfStep.refl _, ChalStep.same rfl rfl⟩
   | sweep => exact shape_sweep s
+  | fault sv ld => exact shape_same rfl rfl rfl rfl
+
+theorem step_shape (s : State) (op : Op) : Shape s (step fixed s op).1 := by
+  rw [step_fst]
+  apply shape_assemble
+  unfold handle
+  split
+  · exact shape_same rfl rfl rfl rfl
+  · exact handle0_shape s op
 
 /-! ## what can never be accepted again -/
 
